@@ -561,11 +561,35 @@ def conc_worker(args):
                                                "ops": [x for x in out.splitlines() if x.startswith("iterw-bad")][:3] + [l]})
         res["sample"] = out.splitlines()[-2:]
         return res
-    try:
-        rc, out, err = run(limited([HBIN, "conc", str(seed), str(ncases)]), timeout=300)
-    except subprocess.TimeoutExpired:
-        res["oracle_fail"].append({"case": 0, "verdict": "hang", "ops": [f"mmharness conc {seed} {ncases} did not finish"], "recorded": True})
-        return res
+    if kind == "miri-conc":
+        # real threads inside Miri: data-race detection, use of freed memory, deadlocks, under the
+        # schedule Miri picks for this seed (supporting validation of the trusted memory-ordering
+        # and DashMap/crossbeam assumptions; never a proof)
+        env = {"MIRIFLAGS": f"-Zmiri-disable-isolation -Zmiri-disable-stacked-borrows -Zmiri-seed={seed % 4294967296}",
+               "CARGO_NET_OFFLINE": "true", "CARGO_TARGET_DIR": os.path.join(HARNESS, "target", "miri")}
+        cmdline = f"cd harness && MIRIFLAGS='{env['MIRIFLAGS']}' cargo +nightly miri run --offline -- conc {seed} {ncases}"
+        try:
+            rc, out, err = run(["cargo", "+nightly", "miri", "run", "--offline", "--", "conc", str(seed), str(ncases)],
+                               cwd=HARNESS, timeout=2400, env=env)
+        except subprocess.TimeoutExpired:
+            res["note"] = "miri conc run did not finish (not counted)"
+            return res
+        bad = re.search(r"Undefined Behavior|Data race|data race|error: deadlock|memory leaked", out + err)
+        if bad:
+            text = out + err
+            i = text.find(bad.group(0))
+            res["oracle_fail"].append({"case": 0, "verdict": "miri: " + text[max(0, i - 100):i + 400].replace("\n", " "),
+                                       "ops": [cmdline] + text[max(0, i - 300):i + 1500].splitlines(), "recorded": True})
+            return res
+        if rc != 0:
+            res["note"] = "miri could not run this batch (not counted): " + (out + err)[-200:]
+            return res
+    else:
+        try:
+            rc, out, err = run(limited([HBIN, "conc", str(seed), str(ncases)]), timeout=300)
+        except subprocess.TimeoutExpired:
+            res["oracle_fail"].append({"case": 0, "verdict": "hang", "ops": [f"mmharness conc {seed} {ncases} did not finish"], "recorded": True})
+            return res
     if rc != 0:
         res["fatal"] = f"conc run crashed rc={rc} {err[-300:]}"
         res["ops_text"] = out[-2000:]
@@ -640,6 +664,8 @@ def miri_worker(args):
 
 
 def worker(args):
+    if args[1] == "miri-conc":
+        return conc_worker(args)
     if args[1].startswith("miri-"):
         return miri_worker(args)
     if args[1].startswith("meta-"):
